@@ -8,10 +8,10 @@
    open one is looked at by os.Stat while not longer than readBytes, or before anything was read ([pok], LStat).
    [pre_of c0 tail] = the bytes --tail skips ([] without --tail); [all e] = every byte ever written to the
    path, incarnation after incarnation; [ndel]/[pdel] = every byte Read has returned.
-   Proofs: Proofs/Follow{Base,Notify,Poll,Refute,Check,Main}.v. *)
+   Proofs: Proofs/Follow{Base,Notify,Poll,Refute,Check,Main,AsFound}.v. *)
 From Coq Require Import List NArith Arith Bool.
 From RareV Require Import Base.Hex Model.Follow Proofs.FollowBase Proofs.FollowNotify Proofs.FollowPoll
-  Proofs.FollowRefute Proofs.FollowCheck Proofs.FollowMain.
+  Proofs.FollowRefute Proofs.FollowCheck Proofs.FollowMain Proofs.FollowAsFound.
 Import ListNotations.
 
 (* safety ("exactly the bytes appended after the starting position, in order, without loss or duplication";
@@ -119,6 +119,19 @@ Theorem C15_prefix_unrepaired_refuted :
                forall rest, all (nenv s) <> [] ++ ndel s ++ rest.
 Proof. exact unrepaired_duplicates. Qed.
 Print Assumptions C15_prefix_unrepaired_refuted.
+
+(* ... and the strongest restriction under which the code AS FOUND is safe (the _partial statement of the
+   finding): in addition to "removal after drain", a file is removed only while the reader has it open
+   ([nok0]); then the same prefix property holds for every interleaving.  The restriction is satisfiable. *)
+Theorem C15_prefix_asfound_partial : forall reopen c0 tail tr s,
+  run (nstep reopen false) (nok0 (pre_of c0 tail)) (ninit c0 tail) tr s ->
+  exists rest, all (nenv s) = pre_of c0 tail ++ ndel s ++ rest.
+Proof. exact asfound_prefix. Qed.
+Print Assumptions C15_prefix_asfound_partial.
+Example C15_asfound_rotation :
+  exists tr s, run (nstep true false) (nok0 []) (ninit (Some cA) false) tr s /\
+               ndel s = cA ++ cx /\ all (nenv s) = cA ++ cx.
+Proof. exact asfound_rotation_example. Qed.
 
 (* the polling proviso of the property is needed: removal after drain alone allows a gap *)
 Theorem C15_poll_proviso_needed :
